@@ -91,7 +91,7 @@ CHECKS.update({
         "quick": T(20000, 45), "thorough": T(500000, 600),
         "rule": "one run = generated simulated process state (independent real/effective uid/gid, name tables with gaps, session, ancestor chain, tty none/closed/present with owner, login fallbacks, environment incl. TZ, cwd, host, instant) + two execs whose formats list every data source named in the statement inside <name=...> delimiters; "
                 "each text compared with the value derived from the world; distinct = vector of world classes",
-        "probes": ["all_ids_distinct", "id_without_name", "no_tty", "ebadf", "deleted_cwd", "tz_non_utc"],
+        "probes": ["all_ids_distinct", "id_without_name", "no_tty", "ebadf", "deleted_cwd", "tz_non_utc", "secure_exec_mode"],
         "assumptions": ["the kernel is a stub: this decides that each data source asks the right question and renders the answer, not that Linux answers correctly"],
     },
     "C14": {
